@@ -29,7 +29,7 @@ RULE = ('Inputs: the tier-0/tier-1 structures of the repository\'s test data (mi
         'within residues (random and reversed), hydrogens renamed (PDB-style rotation and arbitrary names), rigid motion, '
         'and another hash seed. Non-trivial pair = the presentation really changed atom order / names / frame (recorded by '
         'the wrapper) and the reference topology has >= 1 inter-residue interaction. distinct = distinct (input, options, '
-        'presentation) triples.')
+        'presentation) triples. Also: Go-model option sets (presented permuted, H-renamed, hash-seeded and translated, never rotated), requested terminal modifications (caps, neutral termini); a reference run that fails is retried under six other hash seeds.')
 ASSUMPTIONS = ['numeric parameters are compared as printed with tolerance 1e-4 relative + 2e-5 absolute (geometry-derived values '
                'are printed with 5 decimals and may flip their last digit); dihedral angles of +-180 are identified',
                'an elastic bond whose length is within 2e-5 nm of the upper cut-off may be present in one run only '
